@@ -1178,3 +1178,42 @@ Section NwkMgmt.
     - injection Es as <- <-. exact I.
   Qed.
 End NwkMgmt.
+
+(** * a rejected decryption leaves the packet object as it was *)
+Section Reject.
+  Variable E : bytes -> bytes -> bytes.
+
+  Lemma restore_patch f : restore (snd (check_security_level f)) (fst (check_security_level f)) = f.
+  Proof.
+    unfold check_security_level, restore. destruct (N.eqb_spec (f_lvl f) 0) as [H0|H0]; cbn [fst snd sp_patched].
+    - destruct f; cbn in *; subst; reflexivity.
+    - reflexivity.
+  Qed.
+
+  Lemma decrypt_reject_unchanged key f g : decrypt E key f = Ok (g, false) -> g = f.
+  Proof.
+    unfold decrypt, decrypt_with.
+    pose proof (restore_patch f) as Hr. destruct (check_security_level f) as [f1 sp]. cbn [fst snd] in Hr.
+    destruct (extract sp f1) as [ct mic]. destruct (sp_M sp); [discriminate|].
+    destruct (Nat.ltb _ 7); [discriminate|].
+    destruct (ccm_decrypt _ _ _ _ _ _ _ _); [discriminate|].
+    intros H. injection H as <-. exact Hr.
+  Qed.
+
+  (** trying a ring of keys on the object returned by the previous (failed) attempt is the same
+      as trying every key on the original frame: a wrong key tried first changes nothing *)
+  Lemma ring_decrypt_pure_eq keys : forall f, ring_decrypt E keys f = ring_decrypt_pure E keys f.
+  Proof.
+    induction keys as [|k r IH]; intros f; cbn [ring_decrypt ring_decrypt_pure]; [reflexivity|].
+    destruct (decrypt E k f) as [[g b]|cls] eqn:Ed; [|reflexivity].
+    destruct b; [reflexivity|]. apply decrypt_reject_unchanged in Ed. subst g. apply IH.
+  Qed.
+
+  Lemma ring_wrong_key_first wrong key f g :
+    status_of (decrypt E wrong f) = false -> (exists r b, decrypt E wrong f = Ok (r, b)) ->
+    decrypt E key f = Ok (g, true) -> ring_decrypt E [wrong; key] f = Ok (Some g).
+  Proof.
+    intros Hs (r & b & Hd) Hk. rewrite ring_decrypt_pure_eq. cbn [ring_decrypt_pure].
+    rewrite Hd in *. cbn [status_of] in Hs. subst b. rewrite Hk. reflexivity.
+  Qed.
+End Reject.
